@@ -83,7 +83,7 @@ def expressions(k: int, depth: int = 6, start: str = "b") -> tuple:
     return bool_grammar().enumerate(start, k, depth)
 
 
-def focused_families() -> list[tuple[str, str]]:
+def focused_families(full: bool = False) -> list[tuple[str, str]]:
     """Complete products over one mechanism's parameters, independent of k: (family tag, sql)."""
     out = []
     ops = [op for _, op in CMPS]
@@ -129,6 +129,23 @@ def focused_families() -> list[tuple[str, str]]:
         out.append(("constcond", f"NOT ({cond})"))
         out.append(("constcond", f"NOT ({cond} AND p)"))
         out.append(("constcond", f"({cond}) = p"))
+    # conditionals whose BRANCHES are constants / the condition itself (IF(c, TRUE, FALSE) is not c when c is NULL), every
+    # condition kind x every branch pair x every context a rule may look at (parent connector, NOT, comparison, nested)
+    conds = ["p", "x > 1", "x = y", "x IS NULL", "x IN (1, 2)", "x BETWEEN 1 AND 2", "NOT p", "p AND q", "NULL"] if full else ["p", "x > 1", "x IS NULL", "x IN (1, 2)", "NULL"]
+    branches = ["TRUE", "FALSE", "NULL", "p", "q"]
+    ctxs = (["{e}", "q AND {e}", "{e} OR q", "NOT {e}", "NOT (q AND {e})", "({e}) = TRUE", "({e}) IS NULL", "COALESCE({e}, q)", "r AND (q OR {e})"] if full
+            else ["{e}", "q AND {e}", "NOT {e}", "({e}) = TRUE", "r AND (q OR {e})"])
+    for c in conds:
+        for t_ in branches:
+            for f_ in branches:
+                if t_ == f_ and t_ in ("p", "q"):
+                    continue
+                forms = [f"IF({c}, {t_}, {f_})", f"CASE WHEN {c} THEN {t_} ELSE {f_} END"]
+                if f_ == "NULL":
+                    forms.append(f"CASE WHEN {c} THEN {t_} END")
+                for form in forms:
+                    for ctx in ctxs:
+                        out.append(("constbranch", ctx.format(e=form)))
     seen, res = set(), []
     for fam, sql in out:
         if sql not in seen:
